@@ -30,7 +30,9 @@ def check(run):
     # every alignment of the closing break / header relative to the encoder's staging buffer
     sessions += refexp.alignment_sweep(rng, range(0, 2101), rotate=True)
     res = E.run_sessions(run, sessions)
-    model = G.run_driver([s[1].abstract for s in sessions]) if run.driver_ok else [None] * len(sessions)
+    # (sessions with an application-built block are outside the abstract exporter model: no request, no comparison)
+    model = G.run_driver([s[1].abstract or "exm" for s in sessions]) if run.driver_ok else [None] * len(sessions)
+    model = [m if s[1].abstract else None for s, m in zip(sessions, model)]
     seen = set()
     for s, r, m in zip(sessions, res, model):
         nrot = s[0].count(" R:")
